@@ -466,7 +466,7 @@ func outsAgree(a, b FsOut) string {
 }
 
 func c02Exec(fs filesystem.Filespace, op FsOp) FsOut {
-	o := withTimeout(5*time.Second, func() FsOut { return execOn(fs, op) })
+	o := withTimeout(20*time.Second, func() FsOut { return execOn(fs, op) })
 	o.Data = append([]byte{}, o.Data...)
 	return o
 }
